@@ -110,7 +110,6 @@ func (sm *SyncMap[K, V]) DeleteExist(key K) bool {
 		defer sm.lock.Unlock()
 	}
 	if _, exist := sm.data[key]; !exist {
-		sm.lock.Unlock()
 		return exist
 	}
 	delete(sm.data, key)
@@ -209,12 +208,12 @@ func (sm *SyncMap[K, V]) MarshalJSON() ([]byte, error) {
 
 func (sm *SyncMap[K, V]) UnmarshalJSON(bytes []byte) error {
 	var m = make(map[K]V)
-	if !sm.atom {
-		sm.lock.Lock()
-		sm.lock.Unlock()
-	}
 	if err := json.Unmarshal(bytes, &m); err != nil {
 		return err
+	}
+	if !sm.atom {
+		sm.lock.Lock()
+		defer sm.lock.Unlock()
 	}
 	sm.data = m
 	return nil
